@@ -4,10 +4,10 @@ The real SearchManager (real constructor, real EventBus, real Settings), the rea
 BackgroundTask and the real ticket generator run on the virtual loop.  Symbolic data:
 the position of the ticket generator (any value in 1..2^32-1, so the wrap is covered),
 the ticket carried by every incoming reply (any uint32), every configured / server
-provided time-out (any integer number of seconds) and every waiting time (any multiple of
-1/8 s).  The timer heap of the virtual loop is ordered by z3: a comparison between two
-symbolic instants forks, so the order "reply / removal / expiry" is decided by the solver
-over all values, not enumerated.
+provided time-out (any integer number of seconds) and every waiting time (any real number
+of seconds).  The timer heap of the virtual loop is ordered by z3: a comparison between two
+symbolic instants forks, so the order "reply / removal / expiry" - coincidence included - is
+decided by the solver over all values, not enumerated.
 """
 from __future__ import annotations
 
@@ -202,6 +202,7 @@ class CLoop(VLoop):
     def __init__(self):
         super().__init__()
         self.choose2 = None
+        self.side_of: dict = {}       # coroutine qualname -> 'user' | None
         self._time = Fraction(0)      # exact virtual clock (see dur)
 
     def step(self) -> bool:
@@ -218,7 +219,10 @@ class CLoop(VLoop):
             h = (user, lib)[self.choose2()]
         else:
             h = live[0]
-        self._ready.remove(h)
+        for i, x in enumerate(self._ready):      # by identity: TimerHandle.__eq__ would compare (symbolic) instants
+            if x is h:
+                del self._ready[i]
+                break
         self.steps += 1
         self._enter()
         try:
@@ -226,6 +230,16 @@ class CLoop(VLoop):
         finally:
             self._leave()
         return True
+
+    def create_task(self, coro, *, name=None, context=None):
+        """tasks whose coroutine function is listed in `side_of` get that side, whatever context
+        they are created in (the periodic wishlist task = 'user' side, the Timer tasks it creates =
+        library side)"""
+        side = self.side_of.get(getattr(getattr(coro, 'cr_code', None), 'co_qualname', None), _MISSING)
+        if side is not _MISSING:
+            context = context.copy() if context is not None else contextvars.copy_context()
+            context.run(ROLE.set, side)
+        return super().create_task(coro, name=name, context=context)
 
     def spawn_user(self, coro):
         ctx = contextvars.copy_context()
@@ -252,11 +266,14 @@ def as_library(fn, *a, **kw):
 # ------------------------------------------------------------------------------
 
 class FakeNet:
-    def __init__(self):
+    def __init__(self, delay=None):
         self.sent = []
+        self.delay = delay       # None: a send returns at once; else a function giving the (symbolic) duration
 
     async def send_server_messages(self, *msgs):
         self.sent.extend(msgs)
+        if self.delay is not None:
+            await asyncio.sleep(self.delay())
 
 
 class FakeConn:
@@ -286,7 +303,7 @@ class Rec:
 
 class World:
 
-    def __init__(self, c, position='any'):
+    def __init__(self, c, position='any', slow_send=False):
         self.c = c
         self.loop = CLoop()
         self.settings = Settings(**DEFAULT_SETTINGS)
@@ -294,7 +311,7 @@ class World:
                                            WishlistSettingEntry(query='wish off', enabled=False),
                                            WishlistSettingEntry(query='wish two')]
         self.bus = EventBus()
-        self.net = FakeNet()
+        self.net = FakeNet((lambda: dur(c, f'send_takes{next(self.counter)}')) if slow_send else None)
         self.mgr = SearchManager(self.settings, self.bus, None, None, self.net)
         self.events: list[Ev] = []
         self.recs: list[Rec] = []
@@ -334,11 +351,18 @@ class World:
     def _on_sent(self, event):
         self.new_rec(event.query)
 
+    def say(self, *a):
+        """trace for concrete replays (shown by ./vcheck replay)"""
+        if not self.c.symbolic:
+            self.c.note(f't={float(self.loop.time()):g}', *[str(x) for x in a])
+
     def _on_removed(self, event):
         self.events.append(Ev('removed', event.query, self.loop.time()))
+        self.say('SearchRequestRemovedEvent ticket', event.query.ticket)
 
     def _on_result(self, event):
         self.events.append(Ev('result', event.query, self.loop.time(), event.result))
+        self.say('SearchResultEvent for request ticket', event.query.ticket)
 
     def new_rec(self, req):
         if any(r.req is req for r in self.recs):
@@ -348,6 +372,7 @@ class World:
             return
         kind = getattr(getattr(req, 'search_type', None), 'name', '?')
         self.recs.append(Rec(req, kind, self.loop.time(), self.expected_timeout(kind)))
+        self.say('sent', kind, 'ticket', req.ticket, 'timeout', self.recs[-1].timeout)
 
     def expected_timeout(self, kind):
         """reference (docs/source/SETTINGS.rst): request_timeout: 0 = keep indefinitely;
@@ -377,10 +402,12 @@ class World:
             raise symex.HarnessError('; '.join(self.harness_errors[:3]))
 
     # ---- running API calls ----------------------------------------------------
-    def run_op(self, coro, what):
+    def run_op(self, coro, what, wait=True):
         t = self.loop.spawn(coro)
         self.own_tasks.add(t)
         self.loop.run_ready()
+        if not wait and not t.done():
+            return None, None          # still sending; it completes while time passes
         if not t.done() or t.cancelled():
             raise symex.HarnessError(f'{what} did not finish within the instant')
         exc = t.exception()
@@ -449,6 +476,7 @@ class World:
             c.check(False, 'manual_removal_succeeds', sig=[type(e).__name__, 'timeout' if r.deadline is not None else 'no_timeout'],
                     info=repr(e))
         r.manual = True
+        self.say('remove_request ticket', r.ticket)
         c.reach('manual_removal')
 
     # replies ------------------------------------------------------------------
@@ -459,6 +487,7 @@ class World:
         live = self.registered()
         n0 = len(self.events)
         exc = None
+        self.say('PeerSearchReply ticket', m)
         try:
             await self.mgr._on_message_received(MessageReceivedEvent(msg, FakeConn()))
         except Exception as e:  # noqa
@@ -547,11 +576,15 @@ class World:
                 continue
             exc = t.exception()
             if exc is not None:
+                self.say('library task finished with', repr(exc))
                 c.check(False, 'no_task_exception', sig=[type(exc).__name__, ctx], info=repr(exc))
         self.fail_if_harness_errors()
 
     def finish(self):
-        """let every armed time-out be reached, then drain the loop"""
+        """let calls that are still sending complete and every armed time-out be reached, then
+        drain the loop"""
+        self.loop.run_until_quiet()
+        self.discover()
         for r in list(self.recs):
             if r.deadline is not None:
                 self.loop.advance_to(r.deadline)
@@ -559,8 +592,10 @@ class World:
         self.loop.run_until_quiet()
         self.observe()
         for t in self.own_tasks:
-            if t.done() and not t.cancelled() and t.exception() is not None and t not in self.checked_tasks:
-                self.checked_tasks.add(t)
+            if not t.done():
+                raise symex.HarnessError('an API call of the scenario never returned')
+            if not t.cancelled() and t.exception() is not None:
+                raise symex.HarnessError(f'an API call of the scenario raised {t.exception()!r}')
         self.c.reach('scenario_end')
         self.loop.cleanup()
 
@@ -605,8 +640,9 @@ OPS_DOC = {
 
 
 @with_boxed_tickets
-def h_scenario(c, ops='TSDPD', position='low'):
-    w = World(c, position)
+def h_scenario(c, ops='TSDPD', position='low', send='instant'):
+    w = World(c, position, slow_send=(send == 'slow'))
+    wait = send == 'instant'
     for i, op in enumerate(ops):
         if op == 'T':
             w.set_request_timeout()
@@ -618,11 +654,11 @@ def h_scenario(c, ops='TSDPD', position='low'):
             if exc is not None:
                 raise symex.HarnessError(f'WishlistInterval handler raised {exc!r}')
         elif op in 'SRU':
-            exc, _ = w.run_op(w.a_search(op), 'search')
+            exc, _ = w.run_op(w.a_search(op), 'search', wait)
             if exc is not None:
                 raise symex.HarnessError(f'search raised {exc!r}')
         elif op == 'L':
-            exc, _ = w.run_op(w.a_wishlist_round(), 'wishlist round')
+            exc, _ = w.run_op(w.a_wishlist_round(), 'wishlist round', wait)
             if exc is not None:
                 raise symex.HarnessError(f'_wishlist_job raised {exc!r}')
         elif op == 'X':
@@ -810,9 +846,12 @@ def h_timer(c, script='wc', picker=True):
 # ------------------------------------------------------------------------------
 
 @with_boxed_tickets
-def h_wishlist_bg(c, wmode='server', picker=False, position='low'):
+def h_wishlist_bg(c, wmode='server', picker=False, position='low', items=2):
     w = World(c, position)
     loop = w.loop
+    loop.side_of = {'BackgroundTask.runner': 'user', 'Timer.runner': None}
+    if items == 1:
+        w.settings.searches.wishlist = w.settings.searches.wishlist[:2]      # one enabled, one disabled
     if wmode == 'symbolic':
         w.set_wishlist_timeout()
     loop.advance(dur(c, 'logon_at'))
@@ -826,11 +865,16 @@ def h_wishlist_bg(c, wmode='server', picker=False, position='low'):
     if n1:
         c.reach('round1')
     d = dur(c, 'wait')
-    c.assume(d <= 2 * interval + 1)
     if picker:
-        loop.picker = lambda n: c.choose(n, 'sched')
+        # one coinciding instant (round 2 against the expiries of round 1)
+        c.assume(d <= interval)
+    else:
+        c.assume(d <= 2 * interval + 1)
+    if picker:
+        # the periodic task against the timers of the requests: every interleaving within an instant
+        loop.choose2 = lambda: c.choose(2, 'sched')
     loop.advance(d)
-    loop.picker = None
+    loop.choose2 = None
     w.discover()
     w.observe()
     if len(w.recs) > n1:
@@ -852,7 +896,7 @@ META = {
                  'event loop whose timer heap is ordered by z3; obligations are z3 queries per path; models are replayed concretely',
     'explanation': 'The real SearchManager (real constructor, EventBus, Settings), Timer, BackgroundTask and ticket_generator run on '
                    'engine.vloop.VLoop. The generator position (1..2^32-1), every reply ticket (uint32), every configured or '
-                   'server-provided time-out (integer seconds, 0 = off) and every waiting time (k/8 s) are z3 variables. A comparison of '
+                   'server-provided time-out (integer seconds, 0 = off) and every waiting time (real seconds) are z3 variables. A comparison of '
                    'two symbolic instants inside the loop (timer heap, "is it due") forks, so whether a reply / removal / expiry comes '
                    'first, or coincides, is decided by the solver for all values. Obligations compare the events seen on the real '
                    'EventBus, SearchManager.requests and the exceptions of every task / the loop exception handler with a reference '
@@ -876,7 +920,7 @@ META = {
               'logging disabled'],
     'data_variables': ['ticket generator position 1..2^32-1 (Int)', 'ticket of every incoming reply 0..2^32-1 (Int)',
                        'searches.send.request_timeout 0..2^32 (Int)', 'searches.send.wishlist_request_timeout -1..2^32 (Int)',
-                       'server WishlistInterval 0..2^32-1 (Int)', 'every waiting time / Timer timeout: k/8 s, k Int 0..2^40',
+                       'server WishlistInterval 0..2^32-1 (Int)', 'every waiting time, every Timer-level timeout, every duration of a slow send: Real 0..2^36 s',
                        'hence every deadline and every instant at which a reply / removal / expiry happens (Real)'],
     'discriminants': ['the sequence of API calls of a history (job parameter)', 'which registered request the user removes',
                       'which request a matching reply answers', 'order of the ready callbacks of the loop within one instant (picker)',
@@ -886,11 +930,11 @@ META = {
                'thorough': {'requests_per_history': '<= 6', 'ops_per_history': 'all op strings of length <= 4 after the prefix TWI, '
                             'curated ones up to 10', 'consecutive_tickets': 8, 'timer_script_ops': '<= 4', 'wishlist_task_rounds': '<= 3'}},
     'outside': ['more requests / operations than the bound; ticket reuse after 2^32-1 further requests while an untimed request is still live',
-                'sending takes no time (send_server_messages returns at once)',
+                'sending takes no time except in the send=slow scenarios (there: a fresh symbolic duration per send)',
                 'remove_request(ticket:int) form (the object form is used; a proxy is not an int)',
                 'remove_request of a request that is no longer registered (KeyError to the caller is accepted API behaviour)',
                 'a removal event after a user removal is tolerated (the statement forbids result events and errors only)',
-                'instants that are not multiples of 1/8 s; floating point rounding of loop.time() + timeout (exact on the grid)',
+                'binary floating point rounding of loop.time() + timeout (the virtual clock is exact: Real while symbolic, Fraction in replays)',
                 'listeners that themselves call back into the manager'],
     'assumptions': ['asyncio Task/Future/sleep semantics of CPython 3.12', 'time-out settings within their documented domain (>= 0, wishlist >= -1)'],
 }
@@ -902,7 +946,7 @@ QUICK_SCENARIOS = [
     # manual removal, then the old deadline passes, then replies
     'TSXDQ', 'TSDXDQP', 'TRXQD', 'TUDXD',
     # several requests, different time-outs
-    'TSTRDQD', 'TSDTUDXDQ', 'TSRUXQD', 'TSTRTUDPD',
+    'TSTRDQD', 'TSDTUDXDQ', 'TSRUXQD', 'TSTRUDPD',
     # wishlist rounds, time-out from the setting or from the server
     'ILDQD', 'WILDPD', 'WILXDQ', 'ILDLDQ', 'WITSLDXD',
 ]
@@ -942,7 +986,7 @@ def jobs(tier):
     out.append({'harness': 'tickets', 'fn': h_tickets, 'params': {'k': 8, 'position': 'constructor'}, 'requires': ['tickets_end']})
     sc = [(s, 'low') for s in QUICK_SCENARIOS] + [(s, 'wrap') for s in QUICK_WRAP] + [(s, 'constructor') for s in QUICK_CONSTRUCTOR]
     if not q:
-        sc += [(s, 'any') for s in QUICK_SCENARIOS + ['TSRUXDQDQ', 'TWILSDXDQD', 'TSDXDSDXDQ']]
+        sc += [(s, 'any') for s in QUICK_SCENARIOS + ['TSTRTUDPD', 'TSRUXDQDQ', 'TWILSDXDQD', 'TSDXDSDXDQ']]
         sc += [(s, 'low') for s in _thorough_scenarios()]
     seen = set()
     for s, pos in sc:
@@ -955,6 +999,9 @@ def jobs(tier):
         if 'X' in s:
             req.append('manual_removal')
         out.append({'harness': 'scenario', 'fn': h_scenario, 'params': {'ops': s, 'position': pos}, 'requires': req})
+    for ops in (['TSDRDQ', 'ILDQD', 'TSDXDQ'] if q else ['TSDRDQ', 'ILDQD', 'TSDXDQ', 'TSRDQDXD', 'TSRDXDQ', 'TSDXDRDQ', 'WILDXDQD', 'ILDLDQD']):
+        out.append({'harness': 'scenario', 'fn': h_scenario, 'params': {'ops': ops, 'position': 'low', 'send': 'slow'},
+                    'requires': ['scenario_end', 'generator_position_symbolic', 'reply']})
     inst = [['remove'], ['reply'], ['reply_any'], ['search'], ['remove', 'reply']]
     if not q:
         inst += [['reply', 'reply'], ['remove', 'search'], ['remove', 'reply_any']]
@@ -973,8 +1020,8 @@ def jobs(tier):
     for s in scripts:
         out.append({'harness': 'timer', 'fn': h_timer, 'params': {'script': s, 'picker': True}, 'requires': ['timer_end']})
     for wm in ('server', 'symbolic'):
-        for pk in ([False] if q else [False, True]):
-            out.append({'harness': 'wishlist_bg', 'fn': h_wishlist_bg, 'params': {'wmode': wm, 'picker': pk},
+        for pk, items in ([(False, 2), (True, 1)] if q else [(False, 2), (True, 1), (True, 2)]):
+            out.append({'harness': 'wishlist_bg', 'fn': h_wishlist_bg, 'params': {'wmode': wm, 'picker': pk, 'items': items},
                         'requires': ['scenario_end', 'round1', 'round2', 'reply']})
     return out
 
